@@ -250,6 +250,126 @@ theorem C12_failed_commit_invisible_after_reopen (opt0 : Opts) (ops : List OpA) 
   rw [← hsf] at h1 h2 h3 h4
   exact ⟨by rw [hcommit], h1, h2, congrArg SV.lists h3, congrArg SV.sets h3, congrArg SV.zsets h3, h4⟩
 
+/-! ### A `Sync` error inside `Commit` (`commitS`; injected by the harness as `sfault`) -/
+
+theorem writeRec_files_eq (st : State) (r : Rec) (last : Bool) :
+    (writeRec st r last).files = (appendRec (preRotate st r) (markLast r last)).files := by
+  unfold writeRec
+  simp only []
+  split <;> split <;> rfl
+
+/-- the structure-only analogue of `commitLoopF_view_nonkv` for a failing `Sync` -/
+theorem commitLoopS_view_nonkv (recs : List Rec) (s : State) (i : Nat) (b : Bytes) (h : ∀ r ∈ recs, r.ds ≠ dsKV) :
+    view (commitLoopS s recs i).1 b = view s b := by
+  induction recs generalizing s i with
+  | nil => rfl
+  | cons r rest ih =>
+    simp only [commitLoopS]
+    split
+    · rfl
+    · split
+      · exact preRotate_view s r b
+      · rw [ih _ _ (fun x hx => h x (by simp [hx])), writeRec_view_nonkv s r _ b (h r (by simp))]
+
+/-- **C12 (`Sync` error, structure records).** When the `Sync` after any record of a transaction that holds
+list/set/sorted-set records only fails, `Commit` returns the error and no index of any bucket has changed. -/
+theorem C12_sync_error_structs_no_effect (s : State) (recs : List Rec) (i : Nat) (b : Bytes)
+    (hk : ∀ r ∈ recs, r.ds ≠ dsKV) (hfail : (commitS s recs i).2 = .err) :
+    view (commitS s recs i).1 b = view s b := by
+  unfold commitS at hfail ⊢
+  split at hfail
+  · cases hfail
+  · rename_i hne
+    simp only [hne, Bool.false_eq_true, ↓reduceIte]
+    have h1 := commitLoopS_view_nonkv recs s i b hk
+    generalize commitLoopS s recs i = p at h1 hfail ⊢
+    obtain ⟨s1, fine⟩ := p
+    cases fine
+    · simpa using h1
+    · simp only [Bool.not_true, Bool.false_eq_true, ↓reduceIte] at hfail
+      split at hfail <;> cases hfail
+
+open NutsProofs.Reopen NutsProofs.ReopenAll in
+/-- what a failing `Sync` after record `i` (short of the last) leaves in the files is what a crash after `i+1`
+record writes leaves there -/
+theorem commitLoopS_files (recs : List Rec) (s : State) (i : Nat)
+    (hfit : ∀ r ∈ recs, ¬ r.size > s.opt.seg) (hi : i + 1 < recs.length) :
+    (commitLoopS s recs i).1.files = (crashAfterA s recs (i + 1)).files ∧ (commitLoopS s recs i).2 = false := by
+  induction recs generalizing s i with
+  | nil => simp at hi
+  | cons r rest ih =>
+    have hr := hfit r (by simp)
+    have hne : rest.isEmpty = false := by
+      cases rest with
+      | nil => simp at hi
+      | cons _ _ => rfl
+    cases i with
+    | zero =>
+      simp only [commitLoopS, hr, if_false, hne, Bool.not_false, Bool.and_true, beq_self_eq_true, if_true]
+      refine ⟨?_, trivial⟩
+      unfold crashAfterA
+      simp only [List.take_succ_cons, List.take_zero, List.foldl_cons, List.foldl_nil]
+      rw [writeRec_files_eq]
+      unfold appendRec
+      rfl
+    | succ k =>
+      have hk : (k + 1 == 0) = false := by simp
+      simp only [commitLoopS, hr, if_false, hk, Bool.false_and, Bool.false_eq_true, hne, Nat.add_sub_cancel]
+      have h := ih (writeRec s r false) k
+        (fun q hq => by rw [writeRec_opt]; exact hfit q (by simp [hq]))
+        (by simp only [List.length_cons] at hi; omega)
+      unfold crashAfterA at h ⊢
+      simpa using h
+
+open NutsProofs.Reopen NutsProofs.ReopenAll in
+/-- **C12 (a `Sync` error inside Commit, after reopen; all structures, key+value mode, every history).** After
+any history of successfully committed transactions (any structures, reopens anywhere), let the `Sync` that
+follows the write of record `i` of a transaction with a fresh id fail, `i` short of the last record (whose
+outcome the property leaves in doubt). `Commit` returns an error, and after closing and reopening in key+value
+mode the key/value index, the lists, the sets, the sorted sets and the committed ids are exactly those before
+the transaction — although records `0 … i` are in the files. -/
+theorem C12_sync_error_invisible_after_reopen (opt0 : Opts) (ops : List OpA) (hok : OpsOkA (openDB opt0 []).1 ops)
+    (t : List Rec) (tid i : Nat)
+    (hfit : ∀ r ∈ t, ¬ r.size > (ops.foldl stepA (openDB opt0 []).1).opt.seg)
+    (hi : i + 1 < t.length)
+    (ht : ∀ r ∈ t, r.txid = tid ∧ r.status = 0)
+    (hfresh : ∀ x ∈ allRecs (ops.foldl stepA (openDB opt0 []).1).files, x.1.txid ≠ tid)
+    (opt : Opts) (hm : opt.mode = 0) :
+    let s := ops.foldl stepA (openDB opt0 []).1
+    let sf := (commitS s t i).1
+    (commitS s t i).2 = .err ∧
+    (openDB opt sf.files).2 = .ok () ∧ (openDB opt sf.files).1.kv = normKV s.kv ∧
+    (openDB opt sf.files).1.lists = s.lists ∧ (openDB opt sf.files).1.sets = s.sets ∧
+    (openDB opt sf.files).1.zsets = s.zsets ∧
+    (∀ id, id ∈ (openDB opt sf.files).1.committed ↔ id ∈ s.committed) := by
+  intro s sf
+  have hinv : AllInv s := allInv_ops ops _ (allInv_init opt0) hok
+  obtain ⟨hfiles, hfalse⟩ := commitLoopS_files t s i hfit hi
+  have hne : t.isEmpty = false := by
+    cases t with
+    | nil => simp at hi
+    | cons _ _ => rfl
+  have hcommit : commitS s t i = ((commitLoopS s t i).1, .err) := by
+    unfold commitS
+    simp only [hne, Bool.false_eq_true, if_false]
+    generalize commitLoopS s t i = p at hfalse ⊢
+    obtain ⟨s1, fine⟩ := p
+    simp only at hfalse
+    subst hfalse
+    simp
+  have hsf : sf.files = (crashAfterA s t (i + 1)).files := by
+    show (commitS s t i).1.files = _
+    rw [hcommit]; exact hfiles
+  obtain ⟨h1, h2, h3, h4⟩ := crash_in_commit_any s hinv t tid (i + 1) ht hfresh opt hm
+  rw [← hsf] at h1 h2 h3 h4
+  exact ⟨by rw [hcommit], h1, h2, congrArg SV.lists h3, congrArg SV.sets h3, congrArg SV.zsets h3, h4⟩
+
+/-- the hypotheses are met: a put and a set insertion with a fresh id after one committed put, the `Sync` after
+the first record fails — `Commit` returns the error -/
+example : (commitS (commit (openDB { seg := 200 } []).1 [{ (mkRec [97] [107] [48] flagSet dsKV) with txid := 1 }]).1
+    [{ (mkRec [97] [108] [49] flagSet dsKV) with txid := 7 }, { (mkRec [97] [107] [49] flagSet dsSet) with txid := 7 }] 0).2 = .err := by
+  decide
+
 /-- **regenerated tie.** On this run, every call of the transactional API: what it checks before queuing and what it queues — nothing else is done before `Commit` — are the source lines `Nuts.Model.Tx` was written from (`NutsProofs.Facts.expectedTxApiCore` / `List` / `Set` / `Zset`). -/
 theorem C12_tx_api_regenerated :
     NutsProofs.Facts.txApiOfCore = NutsProofs.Facts.expectedTxApiCore ∧
